@@ -563,8 +563,9 @@ func (mf *MultiFileAppendable) appendableFor(off int64) (appendable.Appendable, 
 	if appID == mf.currAppID {
 		metricsCacheHit.Inc()
 		mf.maybePrefetchAheadLocked(appID)
+		currApp := mf.currApp
 		mf.mutex.Unlock()
-		return mf.currApp, nil
+		return currApp, nil
 	}
 
 	// Cache hit fast path.
